@@ -81,7 +81,7 @@ PROPS['C20']={
   {'name':'unpack_maxlen2','module':'harness.C20','cls':'UnpackTotal','quick':{'n':2,'shape':'maxlen2'},'thorough':{'n':3,'shape':'maxlen2'}},
  ]}
 
-HOOK_COMMITS=['5414ff1']
+HOOK_COMMITS=['5414ff1','7156184']
 
 PROPS['C03']={
  'bounds_statement':'rulelib::apply_rules_on_link from MIR vs. an independent reference model of the specification\'s queue algorithm (oracles/rules.py): every rule of a catalog (all seven kinds; literal, *, directory, ?, class and uninterpretable patterns; source/destination prefixes with and without trailing slash; missing referenced step) followed by a revealing tail rule, over every presence pattern of a 3-path universe with free digest bytes; sequences of two catalog rules in the thorough tier.',
@@ -111,10 +111,11 @@ PROPS['C05']={
  'obligations':[{'name':'link','module':'harness.signed','cls':'SignedBytes','quick':{'what':'link','prop':'C05','nbytes':2},'thorough':{'what':'link','prop':'C05','nbytes':3}},
                 {'name':'layout','module':'harness.signed','cls':'SignedBytes','quick':{'what':'layout','prop':'C05','nbytes':2},'thorough':{'what':'layout','prop':'C05','nbytes':3}}]}
 PROPS['C11']={
- 'bounds_statement':'same captured bytes as C05, read by an OLPC canonical JSON reader (only \\" and \\\\ are escapes) and compared with the reference wire tree; plus key-id preimages (see obligations).',
+ 'bounds_statement':'same captured bytes as C05, read by an OLPC canonical JSON reader (only \\" and \\\\ are escapes) and compared with the reference wire tree; plus the bytes hashed into key identifiers: every construction path of ed25519 / ECDSA / RSA keys with six hash-algorithm lists (default, absent, single, unsorted, repeated, empty) hashes exactly the reference canonical description of the key.',
  'assumptions':SIGNED_ASSUME,
  'obligations':[{'name':'link','module':'harness.signed','cls':'SignedBytes','quick':{'what':'link','prop':'C11','nbytes':2},'thorough':{'what':'link','prop':'C11','nbytes':3}},
-                {'name':'layout','module':'harness.signed','cls':'SignedBytes','quick':{'what':'layout','prop':'C11','nbytes':2},'thorough':{'what':'layout','prop':'C11','nbytes':3}}]}
+                {'name':'layout','module':'harness.signed','cls':'SignedBytes','quick':{'what':'layout','prop':'C11','nbytes':2},'thorough':{'what':'layout','prop':'C11','nbytes':3}},
+                {'name':'key_id_preimage','module':'harness.C12','cls':'KeyIds','quick':{},'thorough':{},'validate':{'quick':9,'thorough':18}}]}
 PROPS['C09']={
  'bounds_statement':'decided part: (a) Metablock::new, MetablockBuilder::sign and Metablock::verify hand byte-identical strings to the sign / verify primitives for the same link or layout (free string field incl. newline, backslash, quote, controls; free numbers); (b) the signed block produced by Metablock::new, serialised (Serializer model), decoded again on the borrowed-text and tree channels (Deserializer model) and verified, hands the verify primitive exactly the bytes that were signed; together with C04 (threshold counting under the ideal-signature oracle) this gives: what the library signs verifies again after the wire trip. NOT decided here: the JSON tokenizer (serde_json text layer, compact vs pretty - exercised by the native replay only) and the behaviour of the real primitives under bit flips / cross-scheme use (ring, FFI) - these are exercised only by the native replay samples.',
  'assumptions':SIGNED_ASSUME,
@@ -176,7 +177,7 @@ PROPS['C18']={
  ]}
 
 PROPS['C12']={
- 'bounds_statement':'(a,b) PublicKey::new / from_ed25519 / from_spki / from_pem_spki from MIR (incl. shim_public_key, the Serialize impls, canonical JSON, write_spki through the DER writer model, PEM) for ed25519 (3 free key bytes), ECDSA P-256 (2 free bytes) and the RSA fixture, three hash-algorithm lists: every path hashes exactly the reference canonical description; (c) from_spki / as_spki on the RFC 8410, RFC 3279 and RFC 5480 SubjectPublicKeyInfo templates with free key bytes, plus an ed25519 template with 6 free DER header bytes (panic-freedom); (d) Layout::try_into on every way of filing two keys under own / other / unrelated identifiers; (e) key documents and layout key tables decoded from JSON with every kind of caller-chosen `keyid` member: the identifier of a decoded key is its intrinsic one, a table never aliases.',
+ 'bounds_statement':'(a,b) PublicKey::new / from_ed25519 / from_spki / from_pem_spki from MIR (incl. shim_public_key, the Serialize impls, canonical JSON, write_spki through the DER writer model, PEM) for ed25519 (3 free key bytes), ECDSA P-256 (2 free bytes) and the RSA fixture, three hash-algorithm lists: every path hashes exactly the reference canonical description; (c) from_spki / as_spki on the RFC 8410, RFC 3279 and RFC 5480 SubjectPublicKeyInfo templates with free key bytes, plus an ed25519 template with 6 free DER header bytes (panic-freedom); (d) Layout::try_into on every way of filing two keys under own / other / unrelated identifiers; (e) key documents and layout key tables decoded from JSON with every kind of caller-chosen `keyid` member: the identifier of a decoded key is its intrinsic one, a table never aliases; (f) the RSA public key derived from a PKCS#8 private-key document (3-byte modulus, 1..4-byte exponent, with and without DER sign octets) is RSAPublicKey{n,e} with the integers of the document.',
  'assumptions':UNIT_ASSUME+SIGNED_ASSUME[:1]+['untrusted / derp (DER reader and writer) modelled from derp 0.0.15\'s source; pem encode/parse modelled for concrete bytes (base64 of symbolic bytes is out of reach, hence RSA is decided on the fixture key only); SHA-256 is an injective function of its input (concrete inputs use the real SHA-256)',
                  'JSON text round trip of keys is C16/C17 (wire_pubkey)'],
  'obligations':[
@@ -184,4 +185,5 @@ PROPS['C12']={
    {'name':'spki','module':'harness.C12','cls':'Spki','quick':{},'thorough':{},'validate':{'quick':4,'thorough':4}},
    {'name':'key_table','module':'harness.C12','cls':'KeyTable','quick':{},'thorough':{},'validate':{'quick':6,'thorough':6}},
    {'name':'key_json','module':'harness.C12','cls':'KeyJson','quick':{},'thorough':{},'validate':{'quick':12,'thorough':40}},
+   {'name':'rsa_pkcs8','module':'harness.C12','cls':'RsaPkcs8','quick':{},'thorough':{},'validate':{'quick':8,'thorough':16}},
  ]}
